@@ -84,6 +84,9 @@ def run_check(pid, files, tier="quick", seed=0, quiet=False, out=sys.stdout, wri
         # changes what every other module's calls mean)
         from . import integrity
         integrity.check(ctx, rep, pid)
+        # ... and only where Python's evaluation model agrees with the value model of the term builder
+        from . import hazards
+        hazards.check(ctx, rep, pid)
         fns = ctx.p.all_functions()
         rep.stat("package_functions", len(fns))
         if ctx._G is not None:
